@@ -11,6 +11,7 @@ import (
 	"context"
 	"fmt"
 	"os"
+	"path/filepath"
 	"sync/atomic"
 	"testing"
 	"time"
@@ -189,6 +190,98 @@ func runLateAccept(t *testing.T, rec *recorder, reuseport bool, loops int, via s
 	rep.Eval(fmt.Sprintf("lateaccept-%v-%d-%s", reuseport, loops, via))
 }
 
+// runCrossClose: two connections of one loop are reported ready by the same wait (the loop was busy inside a third
+// connection's callback while their data arrived); the callback of the one handled first closes the other with
+// EventLoop.Close.  The event the loop still holds for the closed one is about a number that is no longer the
+// framework's -- the recorder's grab takes the number over inside the close hook.
+func runCrossClose(t *testing.T, rec *recorder, network string, et bool, seed uint64, scratch string, rep *vsup.Report) {
+	cfg := &sysCfg{name: "crossclose", network: network, et: et, loops: 1, readCap: 2048, writeCap: 4096, stopSrc: "Engine.Stop"}
+	rec.emit("Reset", "cfg", "crossclose "+cfg.String(), "et", et, "loops", 1, "reuseport", false, "ticker", false, "seed", int(seed%1000000))
+	h := &vhandler{rec: rec, cfg: cfg, booted: make(chan struct{}), parkConn: 1, parkReached: make(chan struct{}), parkRelease: make(chan struct{})}
+	var addr, dial string
+	if network == "unix" {
+		dial = filepath.Join(scratch, fmt.Sprintf("cc%d.sock", seed%100000))
+		addr = "unix://" + dial
+	} else {
+		dial = fmt.Sprintf("127.0.0.1:%d", freePort())
+		addr = "tcp://" + dial
+	}
+	opts := []Option{WithNumEventLoop(1), WithLogger(nullLogger{}), WithReadBufferCap(cfg.readCap), WithWriteBufferCap(cfg.writeCap)}
+	if et {
+		opts = append(opts, WithEdgeTriggeredIO(true))
+	}
+	runErr := make(chan error, 1)
+	go func() {
+		err := Run(h, addr, opts...)
+		rec.emit("RunRet", "err", errClass(err))
+		runErr <- err
+	}()
+	select {
+	case <-h.booted:
+	case <-time.After(10 * time.Second):
+		t.Fatalf("engine did not boot")
+	}
+	time.Sleep(20 * time.Millisecond)
+	released := false
+	release := func() {
+		if !released {
+			released = true
+			close(h.parkRelease)
+		}
+	}
+	defer release()
+	mk := func(id, n, other int, hold bool) *peerSpec {
+		sp := &peerSpec{id: id, seed: seed + uint64(id), network: network, total: n, segs: []int{n}, done: make(chan struct{}), openOut: -1, closeAt: -1,
+			closeHow: "action", peerRead: "normal", consume: "all", reply: "none", shut: "abandon", closeOther: other}
+		if hold {
+			sp.hold = make(chan struct{})
+		}
+		return sp
+	}
+	a, b, p := mk(2, 100, 3, true), mk(3, 100, 2, true), mk(1, 64, 0, false)
+	go runPeer(rec, h, a, dial, scratch, rep)
+	go runPeer(rec, h, b, dial, scratch, rep)
+	deadline := time.Now().Add(5 * time.Second)
+	for atomic.LoadInt32(&h.opened) < 2 && time.Now().Before(deadline) {
+		time.Sleep(time.Millisecond)
+	}
+	go runPeer(rec, h, p, dial, scratch, rep)
+	select {
+	case <-h.parkReached:
+		rec.emit("Note", "what", "loop parked inside OnTraffic")
+	case <-time.After(5 * time.Second):
+		rec.emit("Note", "what", "loop not parked")
+	}
+	close(a.hold)
+	close(b.hold)
+	time.Sleep(40 * time.Millisecond) // both have their data in the socket now: the next wait reports them together
+	release()
+	time.Sleep(150 * time.Millisecond)
+	rec.emit("StopReq", "src", "Engine.Stop", "g", vsup.Goid())
+	go func() {
+		ctx, cancel := context.WithTimeout(context.Background(), 20*time.Second)
+		err := h.eng.Stop(ctx)
+		cancel()
+		rec.emit("StopRet", "err", errClass(err))
+	}()
+	select {
+	case <-runErr:
+	case <-time.After(12 * time.Second):
+		rec.emit("RunStuck")
+		rep.Violation("sys/run-stuck", "Run did not return within 12 s of Engine.Stop: "+cfg.String(), nil)
+	}
+	for _, sp := range []*peerSpec{a, b, p} {
+		select {
+		case <-sp.done:
+		case <-time.After(5 * time.Second):
+		}
+	}
+	time.Sleep(600 * time.Millisecond)
+	h.closeDups(true)
+	rec.emit("Grace")
+	rep.Eval(fmt.Sprintf("crossclose-%s-%v", network, et))
+}
+
 func TestVerifLateAccept(t *testing.T) {
 	scratch := os.Getenv("VERIF_SYS_SCRATCH")
 	if scratch == "" {
@@ -210,6 +303,11 @@ func TestVerifLateAccept(t *testing.T) {
 					loops = 1 + rng.Intn(2)
 				}
 				runLateAccept(t, rec, reuse, loops, via, rng.Uint64(), scratch, rep)
+			}
+		}
+		for _, network := range []string{"unix", "tcp"} {
+			for _, et := range []bool{false, true} {
+				runCrossClose(t, rec, network, et, rng.Uint64(), scratch, rep)
 			}
 		}
 	}
